@@ -154,6 +154,21 @@ harness(void)
 	CHECK(nni_msg_alloc(&ep.rx_payload, ep.rcvmax) == 0, "receive buffer");
 
 	env_pipe_init(&kpipe[0], 100, 0x10);
+#ifdef UNFINISHED
+	/* C20: core/pipe.c pipe_create could not complete a pipe after the transport's p_init had run (its id or the protocol's
+	 * per-pipe state could not be allocated): the reaper runs p_close, p_stop, p_fini on a pipe that belongs to no endpoint */
+	{
+		static udp_pipe up;
+		CHECK(udp_pipe_init(&up, &kpipe[0]) == 0, "pipe_init");
+		udp_pipe_close(&up);
+		udp_pipe_stop(&up);
+		udp_pipe_fini(&up);
+		CHECK(env_locks_held == 0, "no lock held");
+		WITNESS("unfinished pipe reaped");
+		WITNESS("end");
+		return;
+	}
+#endif
 	CHECK(udp_pipe_init(&pp, &kpipe[0]) == 0, "pipe_init");
 	CHECK(udp_pipe_start(&pp, &ep, &A) == 0, "pipe registered under its peer address");
 	pp.state = PIPE_CONN_DONE;
